@@ -170,30 +170,24 @@ def run(ctx):
         ir = P.root(P._field(agg, idf))
         R.ob('C11.guard', ('BaseChannel request registration', 'guard carries the request id'), bool(ir) and all(r == ('param', reg.id, 2) and P.fpath(p) == ('id',) for r, p in ir),
              'the guard names the request it protects', [reg.loc(s)])
-    writes = []
-    for f in F.fns.values():
-        if F.is_derived(f) or not in_module(f, 'server'):
-            continue
-        for i, j, s in f.stmts():
-            fs = [e[2] for e in s['pl']['p'] if e[0] == 'f']
-            if fs and fs[-1] == flag and s['rv']['k'] == 'use' and s['rv']['op']['k'] == 'const':
-                writes.append((f, i, s, 'true' in s['rv']['op']['v']))
+    from .server_common import guard_flag_writes
+    writes = guard_flag_writes(F, P, flag)
     arms = [w for w in writes if w[3]]
     disarms = [w for w in writes if not w[3]]
     R.ob('C11.guard', ('server::ResponseGuard', 'one arm site, one disarm site'), len(arms) == 1 and len(disarms) == 1, 'the guard flag is set at one place and cleared at one place',
-         [f.loc(s) for f, _, s, _ in writes])
+         [f.loc(s) for f, _, s, _, _ in writes])
     ifr = list(F.all_aggregates('server::InFlightRequest'))
-    for f, i, s, _ in arms:
+    for f, i, s, _, wl in arms:
         ok = any(g.id == f.id and cfg.dominates(g, i, bi) for g, bi, bj, bs in ifr)
         R.ob('C11.guard', ('Requests stream', 'armed before the InFlightRequest exists'), ok,
              'by the time an InFlightRequest can be dropped its guard is armed', [f.loc(s)])
         for g, bi, bj, bs in ifr:
             gl = P._field(('agg', g.id, bi, bj), 'response_guard')
             # the guard placed in the InFlightRequest is the armed local
-            R.ob('C11.guard', ('Requests stream', 'armed guard is the one handed out'), g.id == f.id and s['pl']['l'] in _locals_of(P, g, bs, 'response_guard'),
+            R.ob('C11.guard', ('Requests stream', 'armed guard is the one handed out'), g.id == f.id and wl in _locals_of(P, g, bs, 'response_guard'),
                  'the guard armed is the guard stored in the InFlightRequest', [g.loc(bs)])
     ex = S.execute
-    for f, i, s, _ in disarms:
+    for f, i, s, _, wl in disarms:
         okb = f.id.startswith(ex.id)
         ab = [(bb, t) for bb, t in f.calls() if callee_is(t, 'Abortable::new')]
         ok = okb and len(ab) == 1
